@@ -608,7 +608,7 @@ pub fn exec(req: &[String], out: &mut Out, tmpdir: &Path) {
     }
     let par = std::env::var("VERIF_PAR").ok().and_then(|v| v.parse().ok()).unwrap_or(4usize).min(4);
     let td = tmpdir.to_path_buf();
-    let results = run_sessions(&sessions, tmpdir, "c11", par, session_timeout().max(150), |s, emit| session(s, &td, emit));
+    let results = run_sessions(&sessions, tmpdir, "c11", par, session_timeout().max(240), |s, emit| session(s, &td, emit));
     for (i, (s, (lines, how))) in sessions.iter().zip(results).enumerate() {
         let mut answers: Vec<String> = vec![];
         for l in lines {
